@@ -88,7 +88,17 @@ type reuseBeh struct{ Hist []reuseOp }
 // reuseReplay steps one behaviour of Reuse.tla through the real objects. Every print must give the
 // source of the file (C01: the sources are canonical), and every restored file must equal, in line
 // count and position range size, what a fresh Restorer makes of the same decorated file.
-func reuseReplay(b reuseBeh) string {
+func reuseReplay(b reuseBeh) string { return reuseReplayWith(b, reuseSources, reuseJudgeBytes) }
+
+// reuseJudgeBytes: canonical sources come back byte for byte (C01, C05)
+func reuseJudgeBytes(src, out string) string {
+	if out != src {
+		return "is not the source: " + diffAt([]byte(src), []byte(out))
+	}
+	return ""
+}
+
+func reuseReplayWith(b reuseBeh, sources []string, judge func(src, out string) string) string {
 	d := decorator.NewDecorator(token.NewFileSet())
 	r := decorator.NewRestorer()
 	fr := r.FileRestorer()
@@ -108,14 +118,14 @@ func reuseReplay(b reuseBeh) string {
 		if err := format.Node(&buf, r.Fset, res.f); err != nil {
 			return fmt.Sprintf("result %d (source %d) does not print: %v", k+1, res.src, err)
 		}
-		if buf.String() != reuseSources[res.src-1] {
-			return fmt.Sprintf("result %d (source %d), printed after %d restores on the same objects, is not the source: %s", k+1, res.src, len(results), diffAt([]byte(reuseSources[res.src-1]), buf.Bytes()))
+		if msg := judge(sources[res.src-1], buf.String()); msg != "" {
+			return fmt.Sprintf("result %d (source %d), printed after %d restores on the same objects, %s", k+1, res.src, len(results), msg)
 		}
 		tf := r.Fset.File(res.f.Pos())
 		if tf == nil || r.Fset.File(res.f.End()-1) != tf {
 			return fmt.Sprintf("result %d (source %d) does not lie in one file of the restorer's file set", k+1, res.src)
 		}
-		if want := reuseFreshLines(res.src); tf.LineCount() != want {
+		if want := reuseFreshLines(sources[res.src-1]); tf.LineCount() != want {
 			return fmt.Sprintf("result %d (source %d): the line table of its token.File has %d lines, restored alone it has %d", k+1, res.src, tf.LineCount(), want)
 		}
 		return ""
@@ -123,7 +133,7 @@ func reuseReplay(b reuseBeh) string {
 	for n, op := range b.Hist {
 		switch op.Op {
 		case "decorate":
-			f, err := d.Parse(reuseSources[op.A-1])
+			f, err := d.Parse(sources[op.A-1])
 			if err != nil {
 				return "harness: " + err.Error()
 			}
@@ -157,8 +167,8 @@ func reuseReplay(b reuseBeh) string {
 }
 
 // reuseFreshLines: the line count of the token.File when the source is decorated and restored alone.
-func reuseFreshLines(src int) int {
-	f, err := decorator.Parse(reuseSources[src-1])
+func reuseFreshLines(src string) int {
+	f, err := decorator.Parse(src)
 	if err != nil {
 		return -1
 	}
@@ -177,11 +187,17 @@ func c01Reuse(c *Ctx) bool {
 			return false
 		}
 	}
+	return reuseCheck(c, reuseSources, reuseJudgeBytes, "c01reuse")
+}
+
+// reuseCheck: Reuse.tla model-checked, its variants rejected, every emitted call sequence replayed on
+// the real objects with the given sources and judge.
+func reuseCheck(c *Ctx, sources []string, judge func(src, out string) string, kind string) bool {
 	mcalls := 5
 	if !c.Quick() {
 		mcalls = 6
 	}
-	files := map[string][]byte{"ReuseMC.tla": []byte(fmt.Sprintf(reuseMC, len(reuseSources[0]), len(reuseSources[1]), len(reuseSources[2])))}
+	files := map[string][]byte{"ReuseMC.tla": []byte(fmt.Sprintf(reuseMC, len(sources[0]), len(sources[1]), len(sources[2])))}
 	mc, err := RunTLC(TLCRun{Module: "ReuseMC", Cfg: reuseCfg(mcalls+1, "ok", false), Workers: 8, Timeout: 20 * time.Minute, Files: files})
 	if err != nil || !mc.OK() {
 		c.Infra("TLC model check of Reuse failed: " + errText(mc, err))
@@ -216,7 +232,7 @@ func c01Reuse(c *Ctx) bool {
 			fails[i] = "harness: bad Reuse behaviour: " + err.Error()
 			return
 		}
-		if msg := guard(func() { fails[i] = reuseReplay(b) }); msg != "" {
+		if msg := guard(func() { fails[i] = reuseReplayWith(b, sources, judge) }); msg != "" {
 			fails[i] = msg
 		}
 	})
@@ -230,7 +246,7 @@ func c01Reuse(c *Ctx) bool {
 			c.Infra(msg)
 			return false
 		}
-		c.Fail(Finding{Sig: "reused-objects-history-dependent", Input: "reuse-history|" + shortHash(behs[i]), What: "one Decorator / Restorer / FileRestorer used for several files, calls " + truncate(behs[i], 300) + ": " + msg, Replay: obj{"kind": "c01reuse", "beh": behs[i]}})
+		c.Fail(Finding{Sig: "reused-objects-history-dependent", Input: "reuse-history|" + shortHash(behs[i]), What: "one Decorator / Restorer / FileRestorer used for several files, calls " + truncate(behs[i], 300) + ": " + msg, Replay: obj{"kind": kind, "beh": behs[i]}})
 	}
 	return true
 }
